@@ -272,6 +272,12 @@ impl ZKey {
     pub fn change_turn(&mut self) {
         self.0 ^= TABLE.get_or_init(ZTable::init).white_turn; // Black's turn is implied by not being White's turn
     }
+
+    /// Verification accessor: the raw 64-bit key.
+    #[cfg(rce_verif)]
+    pub const fn rce_verif_u64(self) -> u64 {
+        self.0
+    }
 }
 
 ////////////////////////////////////////////////////////////////////////////////
